@@ -18,7 +18,7 @@ EXTENDS Integers, Sequences, FiniteSets, TLC
 CONSTANTS
     Users,          \* named users (non-empty strings)
     Fields,         \* the figures of stats.Traffic, as a sequence in the order snapshot()/snapshotAndReset()
-                    \* read them (collector.go:56-76); values = the JSON names, read from the compiled code
+                    \* read them (collector.go:55-75); values = the JSON names, read from the compiled code
     Prog,           \* Prog[k] = the sequence of atomic adds of Collect kind k: [f |-> field, a |-> 0|1|2],
                     \* a = 0: the constant 1, a = 1|2: the call's first|second amount
     Collectors,     \* goroutines that record sessions (relay goroutines: service/tcp.go:271, service/udp_*.go)
@@ -30,7 +30,7 @@ CONSTANTS
     MaxSnap,        \* bound on the number of snapshot-type calls
     MaxReset,       \* bound on the number of those that reset
     UserEndpointDefect  \* FALSE: the per-user endpoint shows the user's figures (the property);
-                        \* TRUE : it shows Snapshot().Traffic, the server totals (ssm.go:137 as first read, finding F13);
+                        \* TRUE : it shows Snapshot().Traffic, the server totals (ssm.go:142 as first read, finding F13);
                         \*        only used to show that ApiUserExact is not vacuous
 
 \* What one recorded session contributes (the meaning of "the traffic of the sessions"):
@@ -98,7 +98,7 @@ Init ==
 
 -----------------------------------------------------------------------------
 (* Collect*: serverCollector.CollectTCPSession / CollectUDPSessionDownlink /  *)
-(* CollectUDPSessionUplink (collector.go:142-155) -> trafficCollector(username) *)
+(* CollectUDPSessionUplink (collector.go:143-155) -> trafficCollector(username) *)
 (* (collector.go:135-140) -> userCollector(username) (collector.go:119-133).   *)
 
 AfterLookup(p) == IF Len(Prog[call[p].k]) = 0 THEN "ret" ELSE "add"
@@ -144,9 +144,9 @@ AddField(p) ==
     /\ UNCHANGED <<made, rd, res, rep, called, outtot, outuser, ncoll, nsnap, nreset>>
 
 -----------------------------------------------------------------------------
-(* Snapshot / SnapshotAndReset (collector.go:163-191), reached through          *)
-(* GET /servers/{s}/stats, GET /servers/{s}/stats?clear (ssm.go:89-97) and      *)
-(* GET /servers/{s}/users/{u} (ssm.go:125-138, a plain Snapshot).               *)
+(* Snapshot / SnapshotAndReset (collector.go:164-192), reached through          *)
+(* GET /servers/{s}/stats, GET /servers/{s}/stats?clear (ssm.go:86-94) and      *)
+(* GET /servers/{s}/users/{u} (ssm.go:130-143, a plain Snapshot).               *)
 
 IsReset(p) == call[p].op = "reset"
 
@@ -164,7 +164,7 @@ CallSnap(p, op, u) ==
     /\ act' = [n |-> "CallSnap", p |-> p, op |-> op, u |-> u]
 
 \* s.Traffic = sc.tc.snapshot() / snapshotAndReset(): one Load / Swap(0) per figure, before sc.mu is taken
-\* (collector.go:164, 179; 56-76)
+\* (collector.go:165, 180; 55-75)
 SnapAnon(p) ==
     /\ pc[p] = "anon"
     /\ LET i == call[p].i
@@ -182,7 +182,7 @@ SnapAnon(p) ==
     /\ UNCHANGED <<made, rd, rec, called, outtot, outuser, ncoll, nsnap, nreset>>
 
 \* sc.mu.RLock(); s.Users = make([]User, 0, len(sc.ucs)): from here to RUnlock no collector can be created, so the
-\* set of users this snapshot visits is fixed now (collector.go:165-166, 180-181)
+\* set of users this snapshot visits is fixed now (collector.go:166-167, 181-182)
 SnapRLock(p) ==
     /\ pc[p] = "rlock"
     /\ LET here == {u \in Users : made[u]} IN
@@ -193,7 +193,7 @@ SnapRLock(p) ==
     /\ UNCHANGED <<cnt, made, call, rec, rep, called, outtot, outuser, ncoll, nsnap, nreset>>
 
 \* one Load / Swap(0) of one user's collector inside `for username, uc := range sc.ucs` (map order: any);
-\* s.Traffic.Add(u.Traffic) is local and is folded into the same step (collector.go:167-171, 182-186)
+\* s.Traffic.Add(u.Traffic) is local and is folded into the same step (collector.go:168-172, 183-187)
 SnapUserField(p, u) ==
     /\ pc[p] = "users"
     /\ IF res[p].cur = None THEN u \in res[p].todo ELSE u = res[p].cur
@@ -214,7 +214,7 @@ SnapUserField(p, u) ==
        /\ act' = [n |-> "SnapUserField", p |-> p, u |-> u, f |-> f, v |-> v]
     /\ UNCHANGED <<made, rd, rec, called, outtot, outuser, ncoll, nsnap, nreset>>
 
-\* sc.mu.RUnlock(); the sort that follows is local (collector.go:172-173, 187-188)
+\* sc.mu.RUnlock(); the sort that follows is local (collector.go:173-174, 188-189)
 SnapRUnlock(p) ==
     /\ pc[p] = "runlock"
     /\ rd' = rd \ {p}
@@ -245,8 +245,8 @@ Return(p) ==
                      [n |-> "Return", p |-> p, op |-> call[p].op,
                       out |-> [tot |-> res[p].tot, users |-> res[p].users, listed |-> res[p].listed]]
 
-\* Requests the API refuses without touching the collector: unknown server (ssm.go:66-70, 102-105) and a user
-\* the credential manager does not know (ssm.go:132-135).
+\* Requests the API refuses without touching the collector: unknown server (ssm.go:66-70, 98-102) and a user
+\* the credential manager does not know (ssm.go:136-140).
 ApiNotFound(p, what, u) ==
     /\ p \in Snappers /\ pc[p] = "idle"
     /\ \/ what = "server" /\ u = None
